@@ -84,6 +84,15 @@ func jsonValues(v9 bool) []jval {
 	str("html", []byte("<a&b>"))
 	str("long", bytes.Repeat([]byte("x"), 300))
 	str("json-looking", []byte(`","V":1},{"I":9`))
+	// text that already LOOKS escaped: the escape sequences an encoder itself produces, as literal characters
+	// (a backslash followed by u0026 / u003c / u003e / n / " / \ / u2028); "un-escaping" passes go wrong on these
+	str("lit-u0026", []byte(`R\u0026D`))
+	str("lit-u003c", []byte(`a\u003cb\u003e`))
+	str("lit-backslash-n", []byte(`a\nb`))
+	str("lit-backslash-quote", []byte(`a\"b`))
+	str("lit-two-backslashes", []byte(`a\\b`))
+	str("lit-u2028", []byte(`a\u2028b`))
+	str("percent", []byte(`100%s %d%%`))
 	f64 := []uint64{0, 1 << 63, 0x7ff0000000000000, 0xfff0000000000000, 0x7ff8000000000001, 0x7ff0000000000001, 1, 0x000fffffffffffff, 0x7fefffffffffffff,
 		math.Float64bits(1e21), math.Float64bits(1e-7), math.Float64bits(0.1), math.Float64bits(-123.456)}
 	for _, b := range f64 {
@@ -164,7 +173,11 @@ func jsonValues(v9 bool) []jval {
 	return vs
 }
 
-var jsonAddrs = []net.IP{net.ParseIP("192.0.2.1"), {192, 0, 2, 1}, net.ParseIP("2001:db8::7"), net.ParseIP("::ffff:10.0.0.1")}
+// exporter address forms; the last three differ from earlier ones only in PART of their octets (the same low 32
+// bits as 2001:db8::7, the same low 32 bits as 192.0.2.1, the same high 96 bits as 2001:db8::7): whatever is
+// remembered per exporter across messages must be keyed by the whole address
+var jsonAddrs = []net.IP{net.ParseIP("192.0.2.1"), {192, 0, 2, 1}, net.ParseIP("2001:db8::7"), net.ParseIP("::ffff:10.0.0.1"),
+	net.ParseIP("2001:db8:ffff::7"), net.ParseIP("2001:db8::c000:201"), net.ParseIP("2001:db8::8")}
 
 // checkFlowJSON compares the published document with the expected tree.
 func checkFlowJSON(v9 bool, out []byte, agent string, hdr [6]uint32, want [][]ref.ExpField) (string, string) {
